@@ -54,6 +54,10 @@
 //	             append on the state slice as GoSem.sliceInsert / sliceDelete (Res.panic out of
 //	             range, sliceOpsPanic); error results that keep the argument name (errLean);
 //	             methods that return their receiver (fluent); local lists of scalars
+//	             (see kernels_valid.go): `(*T, error)` results (a nilable struct pointer ↦ Option
+//	             record); causes that are structs (`&ErrGreaterThen{Target: ".."}`); a separate
+//	             generated cause inductive (causeType); float64 as an ORDER-ONLY `Rat`
+//	             (floatOrder: parameters, constants, comparisons; arithmetic rejected)
 package main
 
 import (
@@ -124,6 +128,29 @@ type kernelSpec struct {
 	errLean       string // != "": the Lean type of an error cause in this kernel (default Cause), see errValueHook
 	sliceOpsPanic bool   // slices.Insert / slices.Delete on the state slice are GoSem.sliceInsert / sliceDelete (Res: they panic out of range)
 	fluent        bool   // the method returns its receiver (`return b`): no result
+
+	// extension used by the kernels of kernels_valid.go
+	floatOrder bool   // float64 ↦ Rat, ORDER ONLY: parameters, constants, comparisons; arithmetic / conversions are rejected
+	causeType  string // != "": the sentinels of this kernel go to a SEPARATE generated inductive of this name (not `Cause`)
+}
+
+// kCauseSets: the generated cause inductives other than `Cause` (kernelSpec.causeType) and their
+// constructors.  The sentinels of the layout kernels stay alone in `Cause`: the proofs map them
+// injectively to the model's LErr, and a new sentinel there must break that match.
+var kCauseSets = map[string]map[string]bool{}
+
+// regCause registers a sentinel of the kernel and returns the Lean constructor.
+func (t *ktr) regCause(name string) string {
+	ct := t.spec.causeType
+	if ct == "" {
+		kCauses[name] = true
+		return "Cause." + name
+	}
+	if kCauseSets[ct] == nil {
+		kCauseSets[ct] = map[string]bool{}
+	}
+	kCauseSets[ct][name] = true
+	return ct + "." + name
 }
 
 // errValueHook: translation of an error result in kernels with errLean (kernels_canid.go)
@@ -133,10 +160,11 @@ var errValueHook func(t *ktr, e ast.Expr) string
 // translated arguments, whose types must be `args`); the result has type `res`.  The callee is
 // NOT translated: the entry is part of the trusted base of the kernel.
 type kOpaque struct {
-	fun  string // the called function as printed source text, e.g. "sl.decodeSignal"
-	args []kType
-	res  kType
-	lean string
+	fun    string // the called function as printed source text, e.g. "sl.decodeSignal"
+	args   []kType
+	res    kType
+	lean   string
+	causes []string // the sentinels the Lean term mentions (constructors of Cause)
 }
 
 var kernelSpecs = []kernelSpec{
@@ -310,6 +338,7 @@ const (
 	kStr kKind = 102 + iota // Go string (and named string types) ↦ String: constants, variables, == / != only
 	kAny                    // Go `any` ↦ Acme.GoSem.Any (the stored value tagged by its dynamic type)
 	kRec                    // a struct (pointer) of kernelSpec.structs ↦ the Lean record `elem`
+	kRat                    // float64 in a floatOrder kernel ↦ Rat (the exact value; comparisons only)
 )
 
 type kType struct {
@@ -336,6 +365,8 @@ func (t kType) lean() string {
 		return "(" + t.elem + ")"
 	case kStr:
 		return "String"
+	case kRat:
+		return "Rat"
 	case kAny:
 		return "Acme.GoSem.Any"
 	case kRec:
@@ -390,6 +421,8 @@ func (t kType) String() string {
 		return "function parameter"
 	case kStr:
 		return "string"
+	case kRat:
+		return "float64 (order only)"
 	case kAny:
 		return "any"
 	case kRec:
@@ -631,6 +664,9 @@ func (t *ktr) typeOf(ty types.Type, at ast.Node) kType {
 		if t.spec.exactFloat {
 			return kType{k: kExact}
 		}
+		if t.spec.floatOrder {
+			return kType{k: kRat}
+		}
 	}
 	t.fail(at, "value of type %s (only integer and bool types are supported)", ty)
 	return kType{}
@@ -649,9 +685,15 @@ func (t *ktr) supported(ty types.Type) bool {
 			}
 		}
 	}
+	if gt, ok := t.spec.goTypes[bareType(types.Unalias(ty))]; ok && gt.k == kStr {
+		return true // a string parameter of a kernel with strings in its type table
+	}
 	b, ok := ty.Underlying().(*types.Basic)
 	if !ok {
 		return false
+	}
+	if b.Kind() == types.Float64 && t.spec.floatOrder {
+		return true
 	}
 	return b.Info()&(types.IsInteger|types.IsBoolean) != 0 && b.Info()&types.IsUntyped == 0
 }
@@ -671,6 +713,16 @@ func (t *ktr) constLit(v constant.Value, ty kType, at ast.Node, asProp bool) str
 			return "False"
 		}
 		return "false"
+	}
+	if ty.k == kRat {
+		r, ok := new(big.Rat).SetString(v.ExactString())
+		if !ok {
+			t.fail(at, "float constant %s", v)
+		}
+		if r.IsInt() {
+			return fmt.Sprintf("(%s : Rat)", r.Num().String())
+		}
+		return fmt.Sprintf("((%s : Rat) / %s)", r.Num().String(), r.Denom().String())
 	}
 	if ty.k == kStr {
 		if v.Kind() != constant.String {
@@ -1149,6 +1201,22 @@ func (t *ktr) value(e ast.Expr, want kType) string {
 	if want.k == kRec {
 		if u, ok := unparen(e).(*ast.UnaryExpr); ok && u.Op == token.AND {
 			return t.recordLit(e, want.elem)
+		}
+	}
+	if want.k == kElemOpt && len(t.spec.structs) > 0 {
+		// a nilable struct pointer: nil ↦ none, &T{..} ↦ some (record)
+		if id, ok := unparen(e).(*ast.Ident); ok {
+			if _, isNil := t.info.Uses[id].(*types.Nil); isNil {
+				return "none"
+			}
+		}
+		if u, ok := unparen(e).(*ast.UnaryExpr); ok && u.Op == token.AND {
+			return "(some " + t.recordLit(e, want.elem) + ")"
+		}
+	}
+	if want.k == kRat {
+		if tv := t.info.Types[unparen(e)]; tv.Value != nil {
+			return t.constLit(tv.Value, want, e, false)
 		}
 	}
 	if id, ok := unparen(e).(*ast.Ident); ok && want.k == kList {
@@ -2321,6 +2389,23 @@ func writeKernels(outDir string, root, dbc *packages.Package) {
 	cause += "  deriving Repr, DecidableEq\n\n"
 	if len(causes) == 0 {
 		cause = ""
+	}
+	var ctypes []string
+	for ct := range kCauseSets {
+		ctypes = append(ctypes, ct)
+	}
+	sort.Strings(ctypes)
+	for _, ct := range ctypes {
+		var cs []string
+		for c := range kCauseSets[ct] {
+			cs = append(cs, c)
+		}
+		sort.Strings(cs)
+		cause += "/-- the error causes (sentinels `Err*` and cause structs `Err*{Target}`) of the kernels that use `" + ct + "` -/\ninductive " + ct + " where\n"
+		for _, c := range cs {
+			cause += "  | " + c + "\n"
+		}
+		cause += "  deriving Repr, DecidableEq\n\n"
 	}
 	if err := os.WriteFile(path, []byte(head+cause+b.String()), 0o644); err != nil {
 		panic(err)
